@@ -17,6 +17,10 @@ import (
 	"google.golang.org/grpc/health/grpc_health_v1"
 )
 
+// grpcShutdownTimeout bounds the controller Shutdown request sent by
+// GRPCClient.Close.
+const grpcShutdownTimeout = 2 * time.Second
+
 func dialGRPCConn(tls *tls.Config, dialer func(string, time.Duration) (net.Conn, error), dialOpts ...grpc.DialOption) (*grpc.ClientConn, error) {
 	// Build dialing options.
 	opts := make([]grpc.DialOption, 0)
@@ -104,7 +108,13 @@ type GRPCClient struct {
 // ClientProtocol impl.
 func (c *GRPCClient) Close() error {
 	c.broker.Close()
-	c.controller.Shutdown(c.doneCtx, &plugin.Empty{})
+
+	// Bound the shutdown request: a plugin that is frozen or otherwise not
+	// answering must not block Close (and therefore Client.Kill) forever.
+	// Kill force-kills the process after its own grace period.
+	ctx, cancel := context.WithTimeout(c.doneCtx, grpcShutdownTimeout)
+	defer cancel()
+	c.controller.Shutdown(ctx, &plugin.Empty{})
 	return c.Conn.Close()
 }
 
